@@ -272,6 +272,28 @@ theorem count_splits_equally (a : Alphabet) (h : a.WFDegen) (x : Nat) (hx : x < 
       ((a.degenSet x).length ≠ 0 → ((a.degenSet x).map fun _ => wt / ((a.degenSet x).length : ℚ)).sum = wt) :=
   count_equal_split a h x hx hdeg ct hct wt
 
+/-- `esl_abc_Match(abc, x, y, p)` for two residue codes at least one of which is degenerate: the probability that residues
+    drawn from `p` restricted to the two sets are identical, Σ_{i ∈ S(x)∩S(y)} p_i² / (Σ_{S(x)} p_i · Σ_{S(y)} p_i)
+    (`flagSum`/`flagSum2` = sums over the flagged entries of the `degen` rows) -/
+theorem match_formula (a : Alphabet) (h : a.WFDegen) (x y : Nat) (hx : x < a.Kp) (hy : y < a.Kp)
+    (hrx : a.xIsResidue x = true) (hry : a.xIsResidue y = true) (hnc : (a.xIsCanonical x && a.xIsCanonical y) = false)
+    (p : List ℚ) (hp : a.K ≤ p.length) :
+    a.matchProb x y (some p) =
+      some (flagSum2 (a.degen.getD x []) (a.degen.getD y []) (fun j => p.getD j 0 * p.getD j 0) 0 a.K /
+        (flagSum (a.degen.getD x []) (fun j => p.getD j 0) 0 a.K * flagSum (a.degen.getD y []) (fun j => p.getD j 0) 0 a.K)) :=
+  matchProb_formula a h x y hx hy hrx hry hnc p hp
+
+/-- canonical pairs match iff equal; anything involving a gap, nonresidue, missing or invalid code scores 0 -/
+theorem match_easy_cases (a : Alphabet) (x y : Nat) (p : Option (List ℚ)) :
+    ((a.xIsCanonical x && a.xIsCanonical y) = true → a.matchProb x y p = some (if x = y then 1 else 0)) ∧
+    ((a.xIsCanonical x && a.xIsCanonical y) = false → (a.xIsResidue x = false ∨ a.xIsResidue y = false) →
+      a.matchProb x y p = some 0) := by
+  refine ⟨fun h => ?_, fun h1 h2 => ?_⟩
+  · unfold matchProb; rw [if_pos h]; by_cases e : x = y <;> simp [e]
+  · unfold matchProb
+    rw [if_neg (by simp [h1])]
+    rcases h2 with h2 | h2 <;> simp [h2]
+
 /-- the degeneracy set read off the dumped table is the IUPAC set (as residue indices): ties `degenSet` above to
     `degen_is_iupac` — e.g. DNA `R` ↦ [A, G] = [0, 2], `N` ↦ [0,1,2,3]; amino `B` ↦ [D, N] = [2, 11] -/
 theorem degen_set_examples :
